@@ -6,7 +6,7 @@ every site's parameters depend on the choices before it. The same AST is interpr
 event-shaped sites); `sim.ref` evaluates it in numpy float64 with Python loops.
 
 Blocks (h -> h):
-  {"k":"site","a":addr,"d":dist,"kw":bool}
+  {"k":"site","a":addr,"d":dist,"kw":bool|"alt"}   ("alt": the other keyword parameterisation, e.g. bernoulli(probs=))
   {"k":"call","a":addr,"m":model[,"g":gain]}   (g present: callee invoked as sub(h, gain=g), default gain=1.0)
   {"k":"vsite","a":addr,"d":dist,"n":n,"mode":"all"|"first"|"int0"|"repeat"}
   {"k":"vcall","a":addr,"m":model,"n":n,"mode":"axes"|"int0"|"repeat"}
@@ -54,10 +54,48 @@ DISC = ["flip", "bernoulli", "categorical"]
 EVENT = ["mvn", "dirichlet"]
 
 
+# alternative keyword parameterisations of the same distribution (same shapes and dtypes): block field "kw": "alt"
+KW_ALT = {
+    "bernoulli": lambda xp, p: {"probs": 1.0 / (1.0 + xp.exp(-p[0]))},
+    "normal": lambda xp, p: {"scale": p[1], "loc": p[0]},
+    "beta": lambda xp, p: {"concentration0": p[1], "concentration1": p[0]},
+}
+
+
 def _mvn_cov(xp, h):
     s = 0.5 + _sig(xp, h)
     base = xp.asarray([[1.0, 0.3], [0.3, 0.8]])
     return base * xp.expand_dims(xp.expand_dims(s, -1), -1)
+
+
+class WithStatic:
+    """View of a generative function called with the static argument alt=const(True): the same
+    function object then visits the additional addresses of model["alt_blocks"]."""
+
+    def __init__(self, gf):
+        from genjax import const
+
+        self.gf, self.kw = gf, {"alt": const(True)}
+
+    def simulate(self, h):
+        return self.gf.simulate(h, **self.kw)
+
+    def generate(self, x, h):
+        return self.gf.generate(x, h, **self.kw)
+
+    def assess(self, x, h):
+        return self.gf.assess(x, h, **self.kw)
+
+    def update(self, tr, x, h):
+        return self.gf.update(tr, x, h, **self.kw)
+
+    def regenerate(self, tr, s, h):
+        return self.gf.regenerate(tr, s, h, **self.kw)
+
+
+def alt_model(model):
+    """The program that runs when alt is set: the blocks followed by the alt blocks."""
+    return {"blocks": list(model["blocks"]) + list(model.get("alt_blocks", []))}
 
 
 def gj_name(d):
@@ -91,8 +129,17 @@ class Gen:
             k = rng.choice(kinds)
             if k == "site":
                 d = rng.choice(self.dists)
-                blocks.append({"k": "site", "a": a, "d": d,
-                               "kw": bool(DISTS[d]["names"]) and rng.random() < 0.2})
+                kw = bool(DISTS[d]["names"]) and rng.random() < 0.25
+                if d in KW_ALT and rng.random() < 0.3:
+                    kw = "alt"
+                blocks.append({"k": "site", "a": a, "d": d, "kw": kw})
+                if kw and rng.random() < 0.5:
+                    # both spellings of one distribution in one program (positional first or second)
+                    twin = {"k": "site", "a": a + "p", "d": d, "kw": False}
+                    if rng.random() < 0.5:
+                        blocks.append(twin)
+                    else:
+                        blocks.insert(len(blocks) - 1, twin)
             elif k == "call":
                 blk = {"k": "call", "a": a, "m": self.model(depth - 1, "", 2, in_vec)}
                 if rng.random() < 0.35:
@@ -129,7 +176,9 @@ class Gen:
                 fam = _family(b["d"])
                 cands = [d for d in fam if d in self.dists] or [b["d"]]
                 b["d"] = rng.choice(cands)
-                if "kw" in b and not DISTS[b["d"]]["names"]:
+                if b.get("kw") == "alt" and b["d"] not in KW_ALT:
+                    b["kw"] = bool(DISTS[b["d"]]["names"])
+                if "kw" in b and b["kw"] is True and not DISTS[b["d"]]["names"]:
                     b["kw"] = False
                 if b["k"] == "vsite" and b["mode"] == "first" and len(DISTS[b["d"]]["params"](np, np.float64(0.0))) == 1:
                     b["mode"] = "all"
@@ -162,7 +211,7 @@ def gen_model(rng, **kw):
 def shape_key(m):
     def k(b):
         if b["k"] == "site":
-            return "s:%s%s" % (b["d"], "k" if b.get("kw") else "")
+            return "s:%s%s" % (b["d"], "a" if b.get("kw") == "alt" else "k" if b.get("kw") else "")
         if b["k"] == "vsite":
             return "vs:%s:%d:%s" % (b["d"], b["n"], b["mode"])
         if b["k"] == "call":
@@ -264,7 +313,9 @@ def build(model, fault=None, kind="top"):
             if k == "site":
                 spec = DISTS[b["d"]]
                 p = spec["params"](jnp, h)
-                if b.get("kw"):
+                if b.get("kw") == "alt":
+                    x = dist_obj(b["d"])(**KW_ALT[b["d"]](jnp, p)) @ b["a"]
+                elif b.get("kw"):
                     x = dist_obj(b["d"])(**dict(zip(spec["names"], p))) @ b["a"]
                 else:
                     x = dist_obj(b["d"])(*p) @ b["a"]
@@ -308,9 +359,13 @@ def build(model, fault=None, kind="top"):
 
     if kind == "top":
         @gen
-        def model_fn(h, gain=1.0):
+        def model_fn(h, gain=1.0, alt=None):
             # gain: keyword parameter with a default (x * 1.0 is exact, so callers that omit it see h itself)
-            return run_blocks(model["blocks"], jnp.asarray(h, dtype=jnp.float32) * gain)
+            # alt: static argument (a Const): Python control flow that changes which addresses are visited
+            h = run_blocks(model["blocks"], jnp.asarray(h, dtype=jnp.float32) * gain)
+            if alt is not None and alt.value:
+                h = run_blocks(model.get("alt_blocks", []), h)
+            return h
 
         return model_fn
 
